@@ -54,6 +54,7 @@ type sdCase struct {
 	GapMs   int // one transport: pause between closing one connection and dialling the next
 	EchoN   int
 	LateMs  int // > 0: keep the connection, wait that long after the echo, echo once more
+	Respec  []*quic.QUICSpec // one UTransport: the spec assigned to UTransport.QUICSpec before dial k
 }
 
 var sdSrvNames = []string{"default", "small-windows", "retry", "long-chain", "pkt1350", "idle-short", "v2-only"}
@@ -121,6 +122,7 @@ type sdResult struct {
 	Err   string
 	Stale string
 	Sent  bool // did the client put a datagram on the wire during this dial
+	SCID  int  // length of the source connection ID in this dial's first Initial packet, -1 = none seen
 }
 
 func sdServe(ctx context.Context, e *simEnv) {
@@ -260,17 +262,30 @@ func runOneSimDial(c sdCase) (res []sdResult, leak string) {
 				e.Router.mu.Lock()
 				from := len(e.Router.log)
 				e.Router.mu.Unlock()
+				if c.Respec != nil && e.CliUTr != nil {
+					e.CliUTr.QUICSpec = c.Respec[k]
+				}
 				res[k] = sdDialEcho(e, c.EchoN, k+1, c.LateMs)
+				res[k].SCID = -1
 				if c.Spec != nil {
 					res[k].Stale = sdStale(e, from)
 				}
 				e.Router.mu.Lock()
+				var first []byte
 				for _, d := range e.Router.log[from:] {
 					if d.Dir == 0 {
+						if !res[k].Sent {
+							first = d.Data
+						}
 						res[k].Sent = true
 					}
 				}
 				e.Router.mu.Unlock()
+				if first != nil {
+					if pk, err := udOpen([][]byte{first}); err == nil && len(pk) > 0 {
+						res[k].SCID = len(pk[0].SCID)
+					}
+				}
 			}
 			scancel()
 			e.Close()
@@ -363,7 +378,45 @@ func sdInvalidSpec(c sdCase) string {
 	return ""
 }
 
+// judgeRespec: dial k+1 through the SAME UTransport with another spec. Either the dial works
+// fully (handshake + echo, and the source connection ID on the wire has the length the spec in
+// force says), or the spec change is refused up front (error, nothing sent) -- never "handshake
+// ok, echo silent".
+func (rep *sdReporter) judgeRespec(c sdCase, res []sdResult, leak string) {
+	base := "simdial/respec/" + c.Q + "/"
+	for k, r := range res {
+		sp := c.Respec[k]
+		what := fmt.Sprintf("dial#%d with %s", k+1, []string{"spec A", "spec B"}[min(k, 1)])
+		switch {
+		case r.Phase == "handshake" && !r.Sent:
+			rep.dist["respec refused up front"]++
+			if k == 0 {
+				rep.fail(base+"handshake", what+": refused although nothing was dialled before: "+r.Err, c.String())
+			}
+		case r.Phase == "handshake":
+			rep.fail(base+"handshake", what+": the handshake does not complete: "+r.Err, c.String())
+		case r.Phase == "echo":
+			rep.fail(base+"echo", what+": the handshake completes, but no stream data comes back: "+r.Err, c.String())
+		default:
+			rep.dist["respec ok"]++
+		}
+		if r.SCID >= 0 && sp != nil && r.SCID != sp.InitialPacketSpec.SrcConnIDLength {
+			rep.fail(base+"scid-length", fmt.Sprintf("%s: the source connection ID on the wire has %d bytes, the spec in force says SrcConnIDLength %d", what, r.SCID, sp.InitialPacketSpec.SrcConnIDLength), c.String())
+		}
+		if r.Stale != "" {
+			rep.fail(base+"stale-scid", r.Stale, c.String())
+		}
+	}
+	if leak != "" {
+		rep.fail(base+"leak-or-panic", leak, c.String())
+	}
+}
+
 func (rep *sdReporter) judge(c sdCase, res []sdResult, leak string) {
+	if c.Respec != nil {
+		rep.judgeRespec(c, res, leak)
+		return
+	}
 	base := "simdial/" + c.Q + "/"
 	if why := sdInvalidSpec(c); why != "" {
 		// the dial has to fail with the validation error, at once, with nothing on the wire
@@ -535,6 +588,8 @@ func runSimDial(w *bufio.Writer, seed uint64, n int, args []string) {
 		for _, q := range append(append([]string{}, parrotNames...), "nil-spec", "plain") {
 			sdChildOnly(w, rep, seed, "late-dup", q, 0)
 		}
+		// one UTransport, another spec for the next dial
+		sdRespec(r.Fork(), 20+n/5, emit)
 	}
 	// --- C: nil spec == plain Transport ---------------------------------------------------
 	nNil := 6 + n/10
@@ -577,6 +632,10 @@ func runSimDial(w *bufio.Writer, seed uint64, n int, args []string) {
 func sdFamily(r *u.Rng, family, only string, n int, emit func(sdCase)) {
 	if family == "late-dup" {
 		sdLateDup(r, only, emit)
+		return
+	}
+	if family == "respec" {
+		sdRespec(r, n, emit)
 		return
 	}
 	for i := 0; i < n; i++ {
@@ -721,5 +780,61 @@ func sdLateDup(r *u.Rng, only string, emit func(sdCase)) {
 			}
 			emit(c)
 		}
+	}
+}
+
+// sdRespec: ONE UTransport; dial with spec A, echo, close; assign spec B to UTransport.QUICSpec;
+// dial, echo. B is another built-in QUICID, or A's QUICID with InitialPacketSpec fields edited
+// (source / destination connection ID length, token, packet number settings) within what
+// InitialPacketSpec.validate accepts. The first cases walk through all pairs of ID-length
+// classes (Chrome: 0 bytes, Firefox: 3 bytes).
+func sdRespec(r *u.Rng, n int, emit func(sdCase)) {
+	fixed := [][2]string{{"Chrome_115_IPv4", "Firefox_116A"}, {"Firefox_116B", "Chrome_146_IPv4"}, {"Chrome_115_IPv6", "Chrome_146_IPv6"}, {"Firefox_116A", "Firefox_116C"}}
+	for i := 0; i < n; i++ {
+		rr := r.Fork()
+		var a, b string
+		if i < len(fixed) {
+			a, b = fixed[i][0], fixed[i][1]
+		} else {
+			a = parrotNames[rr.Intn(len(parrotNames))]
+			b = parrotNames[rr.Intn(len(parrotNames))]
+		}
+		spA, err1 := specFor(a)
+		spB, err2 := specFor(b)
+		if err1 != nil || err2 != nil {
+			continue
+		}
+		nameB := b
+		if i >= len(fixed) && (a == b || rr.Chance(1, 2)) {
+			// the same QUICID again, edited
+			spB, _ = specFor(a)
+			ips := &spB.InitialPacketSpec
+			var ed []string
+			for len(ed) == 0 {
+				if rr.Chance(1, 2) {
+					ips.SrcConnIDLength = []int{0, 3, 4, 8, 20}[rr.Intn(5)]
+					ed = append(ed, fmt.Sprintf("SrcConnIDLength=%d", ips.SrcConnIDLength))
+				}
+				if rr.Chance(1, 3) {
+					ips.DestConnIDLength = []int{8, 12, 20}[rr.Intn(3)]
+					ed = append(ed, fmt.Sprintf("DestConnIDLength=%d", ips.DestConnIDLength))
+				}
+				if rr.Chance(1, 3) {
+					ips.ClientTokenLength = rr.Range(8, 70)
+					ed = append(ed, fmt.Sprintf("ClientTokenLength=%d", ips.ClientTokenLength))
+				}
+				if rr.Chance(1, 3) {
+					ips.InitPacketNumber, ips.InitPacketNumberLength, ips.InitPacketNumberLengths = uint64(rr.Range(0, 5)), 2, nil
+					ed = append(ed, fmt.Sprintf("InitPacketNumber=%d/2 bytes", ips.InitPacketNumber))
+				}
+			}
+			nameB = a + "{" + strings.Join(ed, ",") + "}"
+		}
+		c := sdCase{Name: "respec A=" + a + " B=" + nameB, Q: a + "-" + strings.SplitN(nameB, "{", 2)[0], Spec: spA, Respec: []*quic.QUICSpec{spA, spB}, Dials: 2, SameEnv: true,
+			GapMs: []int{0, 50, 500}[rr.Intn(3)], EchoN: 20000}
+		if strings.Contains(nameB, "{") {
+			c.Q = a + "-edited"
+		}
+		emit(c)
 	}
 }
